@@ -2,6 +2,8 @@ package canon
 
 import (
 	"fmt"
+
+	"github.com/cockroachdb/apd/v3"
 	"sort"
 	"strings"
 
@@ -101,6 +103,12 @@ func canonV(c *adt.OpContext, v *adt.Vertex, depth int) string {
 	return fmt.Sprintf("?%T", v.BaseValue)
 }
 
+func numStr(n *adt.Num) string {
+	var d apd.Decimal
+	d.Reduce(&n.X)
+	return d.String()
+}
+
 func canonVal(c *adt.OpContext, x adt.Value, depth int) string {
 	switch y := x.(type) {
 	case *adt.Vertex:
@@ -113,7 +121,12 @@ func canonVal(c *adt.OpContext, x adt.Value, depth int) string {
 		sort.Strings(ps)
 		return "AND(" + strings.Join(uniq(ps), " & ") + ")"
 	case *adt.Num:
-		return fmt.Sprintf("%v:%s", y.K, y.X.String())
+		return fmt.Sprintf("%v:%s", y.K, numStr(y))
+	case *adt.BoundValue:
+		// a bound is compared by operator and numeric value of its operand (<=255.0 is <=255)
+		if n, ok := y.Value.(*adt.Num); ok {
+			return fmt.Sprintf("%v:%v%s", x.Kind(), y.Op, numStr(n))
+		}
 	}
 	return fmt.Sprintf("%v:%s", x.Kind(), c.Str(x))
 }
